@@ -6,6 +6,7 @@ import networkx as nx
 
 from .. import tables
 from ..callgraph import callgraph
+from ..canon import single_assignments
 from ..pat import find_expr, find_stmt, match_expr, match_stmt
 from ..pm import src
 from ..q import FA, attr_mutating_calls, attr_stores, call_name, guard_facts, is_self_attr, walk_no_nested, conjuncts
@@ -61,11 +62,10 @@ def run(ctx):
     for cq in (tables.ANALYTIC, tables.FP):
         f = ctx.fn(cq + ".draw")
         fa = FA(f)
-        pops = find_stmt("$$i = self.indices.pop()", f.node)
-        gets = find_stmt("$$s = self.samples[$$i]", f.node)
-        okd = len(pops) == 1 and len(gets) == 1 and src(pops[0][1]["i"]) == src(gets[0][1]["i"])
         rets = [n for n in walk_no_nested(f.node) if isinstance(n, ast.Return)]
-        okd = okd and len(rets) == 1 and src(rets[0].value) == src(gets[0][1]["s"])
+        npop = [c for c in walk_no_nested(f.node) if isinstance(c, ast.Call) and call_name(c) == "self.indices.pop"]
+        # the index is popped exactly once and the row at that index is what is returned (locals may or may not be used)
+        okd = len(npop) == 1 and len(rets) == 1 and rets[0].value is not None and match_expr("self.samples[self.indices.pop()]", rets[0].value, inline=single_assignments(f.node, allow_mutated=True)) is not None
         ctx.ob("R-SIB", "C09.2", f, "draw() returns the pool row at the popped index (each index is popped once)", okd, "")
         clr = find_stmt("if not self.indices:\n    self.populated = False", f.node) or [x for x in walk_no_nested(f.node) if isinstance(x, ast.If) and src(x.test) == "not self.indices" and any(match_stmt("self.populated = False", s) is not None for s in x.body)]
         ctx.ob("R-ORDER", "C09.2", f, "an exhausted pool is marked unpopulated so it is refilled before the next draw", len(clr) == 1, "")
@@ -196,20 +196,22 @@ def run(ctx):
         cw_ = prog.cls(cq).methods.get("compute_weights")
         ctx.require(cw_ is not None, f"{cq}.compute_weights vanished")
         inl_ = _sa(cw_.node)
-        wdef = find_stmt("$$w = $$p - $$q", cw_.node)
         rets_ = [r for r in walk_no_nested(cw_.node) if isinstance(r, ast.Return)]
-        okw_ = len(wdef) == 1 and all((isinstance(r.value, ast.Name) and r.value.id == src(wdef[0][1]["w"])) or (isinstance(r.value, ast.Tuple) and src(r.value.elts[0]) == src(wdef[0][1]["w"]) and src(r.value.elts[1]) == src(wdef[0][1]["p"])) for r in rets_)
-        ctx.ob("R-SIB", "C09.8", cw_, "rejection weights are log prior - log proposal density of the same points (and the log prior is what is returned as such)", okw_, f"`{src(wdef[0][0]) if wdef else None}`")
+        # every return hands back `log prior - log proposal density` (and, as a pair, the same log prior), with or without locals
+        okw_ = bool(rets_) and all(r.value is not None and (match_expr("$p - $q", r.value, inline=inl_) is not None or match_expr("($p - $q, $p)", r.value, inline=inl_) is not None) for r in rets_)
+        ctx.ob("R-SIB", "C09.8", cw_, "rejection weights are log prior - log proposal density of the same points (and the log prior is what is returned as such)", okw_, f"`{[src(r)[:60] for r in rets_]}`")
     rp = ctx.fn(tables.REJECTION + ".populate")
     ok_r = False
+    inl_rp = _sa(rp.node)
     b0 = find_stmt("$$w, $$x['logP'] = self.compute_weights($$x, return_log_prior=True)", rp.node)
     if len(b0) == 1:
         bb = b0[0][1]
         n1 = find_stmt("$$w -= nanmax($$w)", rp.node, bb) or find_stmt("$$w -= max($$w)", rp.node, bb)
-        u1 = find_stmt("$$u = log(random.rand(N))", rp.node)
-        if len(n1) == 1 and len(u1) == 1:
-            acc = find_stmt("$$i = where($$w - $$u >= 0)[0]", rp.node, {**bb, **u1[0][1]}) or find_stmt("$$i = where($$w >= $$u)[0]", rp.node, {**bb, **u1[0][1]}) or find_stmt("$$i = where($$w > $$u)[0]", rp.node, {**bb, **u1[0][1]})
-            ok_r = len(acc) == 1 and len(find_stmt("self.samples = $$x[$$i]", rp.node, {**bb, **acc[0][1]})) == 1 and len(find_stmt("$$x = self.draw_proposal(N=N)", rp.node, bb)) == 1
+        pools = [b_["v"] for n_, b_ in find_stmt("self.samples = $v", rp.node)]
+        acc_ok = len(pools) == 1 and any(match_expr(pat_, pools[0], bb, inline=inl_rp) is not None for pat_ in (
+            "$$x[where($$w - log(random.rand(N)) >= 0)[0]]", "$$x[where($$w >= log(random.rand(N)))[0]]", "$$x[where($$w > log(random.rand(N)))[0]]",
+            "$$x[$$w - log(random.rand(N)) >= 0]", "$$x[$$w >= log(random.rand(N))]", "$$x[$$w > log(random.rand(N))]"))
+        ok_r = len(n1) == 1 and acc_ok and len(find_stmt("$$x = self.draw_proposal(N=N)", rp.node, bb)) == 1
     ctx.ob("R-SIB", "C09.8", rp, "RejectionProposal: N proposal draws, weights normalised by their maximum, one uniform per draw, the pool is the accepted rows of those draws", ok_r, "")
     fp_ = ctx.fn(tables.FP + ".populate")
     fpa = FA(fp_)
